@@ -10,7 +10,8 @@ SCHEMA = f'''<xs:schema {XS} targetNamespace="urn:t" xmlns:t="urn:t" elementForm
           <xs:element name="leaf" type="xs:int" minOccurs="0" maxOccurs="3"/></xs:sequence>
           <xs:attribute name="ref" type="xs:IDREF"/><xs:attribute name="codeRef" type="xs:int"/></xs:complexType></xs:element>
      </xs:sequence><xs:attribute name="id" type="xs:ID" use="required"/><xs:attribute name="code" type="xs:int" use="required"/><xs:attribute name="lang" type="xs:language"/></xs:complexType></xs:element>
-  </xs:sequence></xs:complexType>
+  </xs:sequence><xs:attribute name="first" type="xs:int"/></xs:complexType>
+  <xs:keyref name="R0" refer="t:K"><xs:selector xpath="."/><xs:field xpath="@first"/></xs:keyref>
   <xs:key name="K"><xs:selector xpath="t:item"/><xs:field xpath="@code"/></xs:key>
   <xs:keyref name="R" refer="t:K"><xs:selector xpath="t:item/t:sub"/><xs:field xpath="@codeRef"/></xs:keyref>
  </xs:element></xs:schema>'''
@@ -27,10 +28,12 @@ def gen(rng, nitems):
         subs = ''.join(f'<t:sub ref="i{rng.randrange(nitems)}" codeRef="{rng.randrange(nitems)}">' + ''.join(f'<t:leaf>{rng.randrange(9)}</t:leaf>' for _ in range(rng.randrange(3))) + '</t:sub>'
                        for _ in range(rng.randrange(3)))
         items.append(f'<t:item id="i{i}" code="{i}"' + (' lang="en"' if rng.random() < .3 else '') + f'><t:name>n{i}</t:name><t:qty>{i + 1}</t:qty>{subs}</t:item>')
-    return '<t:r xmlns:t="urn:t">' + ''.join(items) + '</t:r>'
+    # a key reference held by the root element itself (collected when the root is processed: last, in a lazy run)
+    first = f' first="{rng.randrange(nitems)}"' if rng.random() < .5 else ''
+    return f'<t:r xmlns:t="urn:t"{first}>' + ''.join(items) + '</t:r>'
 
 
-FAULTS = [('qty>', 'qty>x'), ('code="0"', 'code="1"'), ('ref="i0"', 'ref="zz"'), ('codeRef="1"', 'codeRef="77"'), ('<t:name>', '<t:bogus/><t:name>'), (' id="i1"', ''),
+FAULTS = [(' first="', ' first="98'), ('qty>', 'qty>x'), ('code="0"', 'code="1"'), ('ref="i0"', 'ref="zz"'), ('codeRef="1"', 'codeRef="77"'), ('<t:name>', '<t:bogus/><t:name>'), (' id="i1"', ''),
           ('<t:leaf>1', '<t:leaf>q'), ('code="1"', 'code="0"'), ('<t:qty>', '<t:qty extra="1">'), ('</t:item>', '<t:name>dup</t:name></t:item>')]
 
 
